@@ -10,6 +10,10 @@ Directive syntax inside a template (`verus/units/<unit>.rs.in`):
   //@| <invariant / decreases text placed between the loop head and its '{'>
   //@before "<statement prefix>" [nth=<k>]
   //@| <proof text placed before that statement>
+  //@in_loop <ordinal>
+  //@| <proof text placed at the start of that loop's body>
+  //@after_text "<exact text>" [nth=<k>]
+  //@| <spec text placed right after that text (closure contracts: `-> (r: T) requires .. ensures ..`)>
   //@drop "<statement prefix>" [nth=<k>]
   //@end
 
@@ -158,7 +162,7 @@ class Expander:
         impl = kv.get("impl")
         nth = int(kv.get("nth", "0"))
         # parse sub-blocks
-        sig_spec, loops, befores, drops = [], {}, [], []
+        sig_spec, loops, befores, drops, after_texts, in_loops = [], {}, [], [], [], []
         cur = sig_spec
         for b in block[k:]:
             if b.startswith("//@|"):
@@ -170,6 +174,14 @@ class Expander:
                 _p, _kv = _parse_kv(t)
                 cur = []
                 befores.append((_p[0], int(_kv.get("nth", "0")), cur))
+            elif b.startswith("//@in_loop "):
+                cur = []
+                in_loops.append((int(b.split()[1]), cur))
+            elif b.startswith("//@after_text "):
+                t = shlex.split(b[len("//@after_text "):])
+                _p, _kv = _parse_kv(t)
+                cur = []
+                after_texts.append((_p[0], int(_kv.get("nth", "0")), cur))
             elif b.startswith("//@drop "):
                 t = shlex.split(b[len("//@drop "):])
                 _p, _kv = _parse_kv(t)
@@ -216,6 +228,22 @@ class Expander:
             except ScanError as e:
                 raise ExtractError("%s::%s: %s" % (rel, name, e))
             ins.append((a, "\n".join(txt) + "\n        "))
+        for (ordinal, txt) in in_loops:
+            lp = S.loops(bo, end)
+            if ordinal >= len(lp):
+                raise ExtractError("%s::%s: no loop %d" % (rel, name, ordinal))
+            ins.append((lp[ordinal][1] + 1, "\n" + "\n".join(txt) + "\n"))
+        for (needle, k2, txt) in after_texts:
+            # exact text occurrence inside the body (used to give a closure its contract:
+            # the text is inserted right after the closure's parameter list)
+            pos_ = -1
+            start_ = bo
+            for _ in range(k2 + 1):
+                pos_ = S.text.find(needle, start_, end)
+                if pos_ < 0:
+                    raise ExtractError("%s::%s: text anchor `%s` not found" % (rel, name, needle))
+                start_ = pos_ + 1
+            ins.append((pos_ + len(needle), " " + " ".join(txt) + " "))
         for (prefix, k2) in drops:
             try:
                 a, b2 = S.find_stmt(bo, end, prefix, k2)
